@@ -14,7 +14,7 @@ use num_traits::{One, Signed, Zero};
 use serde::{Deserialize, Serialize};
 
 pub const POOL: usize = 4;
-pub const NKINDS: u8 = 27;
+pub const NKINDS: u8 = 28;
 /// values are kept below this many words (decided from the model)
 pub const MAXW: u64 = 300;
 
@@ -582,7 +582,7 @@ pub fn run(init: &[(bool, Nat)], ops: &[Op]) -> Result<Report, String> {
                         if ma.is_zero() && mb.is_zero() {
                             skipped = true;
                         } else {
-                            let g = if form & 8 == 0 { (&pool[a]).gcd(&pool[b]) } else { pool[a].clone().gcd(pool[b].clone()) };
+                            let g = if form & 8 == 0 { Gcd::gcd(&pool[a], &pool[b]) } else { Gcd::gcd(pool[a].clone(), pool[b].clone()) };
                             pool[d] = IBig::from(g);
                             model[d] = ma.gcd(&mb);
                         }
@@ -611,10 +611,10 @@ pub fn run(init: &[(bool, Nat)], ops: &[Op]) -> Result<Report, String> {
                             skipped = true;
                         } else {
                             let (q, r) = match (form >> 3) % 4 {
-                                0 => (&pool[a]).div_rem(&pool[b]),
-                                1 => pool[a].clone().div_rem(pool[b].clone()),
-                                2 => (&pool[a]).div_rem(pool[b].clone()),
-                                _ => pool[a].clone().div_rem(&pool[b]),
+                                0 => DivRem::div_rem(&pool[a], &pool[b]),
+                                1 => DivRem::div_rem(pool[a].clone(), pool[b].clone()),
+                                2 => DivRem::div_rem(&pool[a], pool[b].clone()),
+                                _ => DivRem::div_rem(pool[a].clone(), &pool[b]),
                             };
                             let (tq, tr) = ma.div_rem(&mb);
                             if i2n(&r) != tr {
@@ -692,6 +692,12 @@ pub fn run(init: &[(bool, Nat)], ops: &[Op]) -> Result<Report, String> {
                         }
                     }
                 }
+            }
+            26 => {
+                // Zeroize (cargo feature): the digits are wiped, the value becomes a canonical zero and
+                // the buffer is released
+                zeroize::Zeroize::zeroize(&mut pool[a]);
+                model[a] = BigInt::zero();
             }
             _ => {
                 // read-only use of a value built by from_static_words (never mutated, never dropped)
